@@ -183,6 +183,15 @@ def run(rep, pdb, tier):
                 rep.add("step/%s" % short, "dx solves J*dx = f(current) by solve_basic with the Jacobian evaluated at current (finite-difference with self.delta, or the supplied one); the update subtracts dx",
                         oks_ and okj2, upd.node, "dx=%s J=%s" % (show(dx, ctx)[:120], show(jinit, ctx)[:120] if jinit else None))
         rep.add("ok-tested/%s" % short, "the only Ok(..) is inside the loop, control-dependent on the stopping test, and carries the iterate", ok1, oks[0] if oks else fn["body"], det)
+    # ---- the dense solve used for the step (src/matrix/solve.rs is an anchor of this property): pivoting by magnitude
+    from .c01 import rule_magnitude, check_argmax
+    rule_magnitude(rep, pdb, ["matrix::Matrix<T>::solve_basic"], key="step-solver/magnitude")
+    mac = pdb.fn("matrix::Matrix<T>::max_abs_in_column")
+    if mac is None:
+        rep.missing("step-solver/argmax", "pivot search exists", "max_abs_in_column not found")
+    else:
+        check_argmax(rep, pdb, mac, "step-solver", P(2), F(P(0), "rows"), 1, lambda c: P(1))
+    rep.floor("step-solver/", 1)
     rep.floor("state/receiver/", 6)
     rep.floor("bounded/loop/", 6)
     rep.floor("bounded/callees/", 6)
